@@ -30,9 +30,9 @@ def partitions(tier):
         for cmd in range(5):
             if cmd == 3:
                 top = M.INTERNAL_MAX[old]
-                for lo_t in range(0, top + 1, 8):
+                for lo_t in range(0, top + 1, 4):
                     parts.append(dict(ids, name="recv-%s-%s-cmd3-t%d" % (old, new, lo_t), fn="sym_recv", old=old, new=new, cmd=3,
-                                      tlo=lo_t, thi=min(top, lo_t + 7), maxch=0, values=False, sym_reboot=False, budget=600 if q else 3000, cost=5))
+                                      tlo=lo_t, thi=min(top, lo_t + 3), maxch=0, values=False, sym_reboot=False, budget=600 if q else 3000, cost=5))
                 continue
             parts.append(dict(ids, name="recv-%s-%s-cmd%d" % (old, new, cmd), fn="sym_recv", old=old, new=new, cmd=cmd,
                               sym_reboot=(cmd == 1), sym_sleep=False, noparked=True, budget=600 if q else 3000, cost=3))
